@@ -98,6 +98,9 @@ func DecodeDac3SR(hdr BoxHeader, startPos uint64, sr bits.SliceReader) (Box, err
 
 func decodeDac3FromData(data []byte) (Box, error) {
 	b := Dac3Box{}
+	if len(data) < 3 || len(data) > 3+255 {
+		return nil, fmt.Errorf("dac3 box, payload length %d not in range 3 to 258", len(data))
+	}
 	if len(data) > 3 {
 		b.InitialZeroes = byte(len(data) - 3)
 	}
